@@ -227,7 +227,10 @@ def oracle_c04(name, cfg, res):
         bad = np.nonzero(free & (dev > 0.5 + 1e-9 * fs / tgt))[0]
         if len(bad):
             j = int(bad[0]); out.append(("logspace", "bin %d: L=%d differs from fs/(f*logfact)=%r by more than rounding" % (j, L[j], fs / tgt[j])))
-        bad = np.nonzero(free & (K < Kdes))[0]
+        # 'wherever the desired averaging is attainable': not at the N-L+1 position cap, and the record long enough that
+        # rounding L by half a sample cannot cost an average:  N*xov >= (1+xov(Kdes-1)) (1+xov(Kdes-1.5))
+        attainable = (K < N - L + 1) & (N * xov >= (1 + xov * (Kdes - 1)) * (1 + xov * (Kdes - 1.5)))
+        bad = np.nonzero(free & attainable & (K < Kdes))[0]
         if len(bad):
             j = int(bad[0]); out.append(("Kdes", "bin %d: unclamped log-spaced bin has K=%d < Kdes=%d" % (j, K[j], Kdes)))
     return out
